@@ -186,9 +186,10 @@ def run_proc_odd(spec, res):
         sig = {'entry': via, 'backend': be, 'harness': 'process-pool', 'values': 'odd'}
         res.case(('proc-odd', be, via), True)
         try:
-            p = subprocess.run([PYTHON, '-W', 'ignore', '-m', 'vlib.c04_odd_child',
-                                json.dumps(sc)], cwd=str(HOME), env=env,
-                               capture_output=True, text=True, timeout=120)
+            from ..procpool import run_child
+            p = run_child([PYTHON, '-W', 'ignore', '-m', 'vlib.c04_odd_child',
+                           json.dumps(sc)], 120, cwd=str(HOME), env=env,
+                          capture_output=True, text=True)
         except subprocess.TimeoutExpired:
             res.violation('iteration-never-completes', case, None, sig=sig)
             continue
